@@ -43,6 +43,51 @@ type Universe struct {
 	Comps []string
 }
 
+// activeSuffixes lists the name suffixes the pipeline of cfg appends to content records.
+func activeSuffixes(cfg Config) []string {
+	var out []string
+	switch cfg.Compression {
+	case "gzip", "parallelgzip":
+		out = append(out, ".gz")
+	case "lz4":
+		out = append(out, ".lz4")
+	case "zstandard":
+		out = append(out, ".zst")
+	case "brotli":
+		out = append(out, ".br")
+	case "bzip2", "parallelbzip2":
+		out = append(out, ".bz2")
+	}
+	switch cfg.Encryption {
+	case "age":
+		out = append(out, ".age")
+	case "pgp":
+		out = append(out, ".pgp")
+	}
+	return out
+}
+
+func GenUniverseAvoid(r *rand.Rand, style string, avoid []string) Universe {
+	u := GenUniverse(r, style)
+	var keep []string
+	for _, c := range u.Comps {
+		bad := false
+		for _, a := range avoid {
+			if strings.HasSuffix(c, a) {
+				bad = true
+			}
+		}
+		if !bad {
+			keep = append(keep, c)
+		}
+	}
+	if len(keep) == 0 {
+		keep = []string{"a", "b"}
+	}
+	u.Comps = keep
+	return u
+}
+
 func GenUniverse(r *rand.Rand, style string) Universe {
 	if style == "" {
 		if r.Float64() < 0.35 {
@@ -105,7 +150,7 @@ type GenOpts struct {
 	RS        int
 	NoRename  bool
 	// known-finding relaxations
-	NoRemoveOpen bool
+	AvoidSuffixes []string // KF-suffix: names ending in the active pipeline suffix
 }
 
 type genState struct {
@@ -187,7 +232,7 @@ func GenHistory(r *rand.Rand, o GenOpts) ([]Op, Universe) {
 	if o.RS == 0 {
 		o.RS = 20
 	}
-	g := &genState{r: r, u: GenUniverse(r, o.Style), o: o, now: 946684800}
+	g := &genState{r: r, u: GenUniverseAvoid(r, o.Style, o.AvoidSuffixes), o: o, now: 946684800}
 	g.ref = NewRefFS(func() int64 { return g.now * 1e9 }, 0o777)
 	n := 1 + r.IntN(o.MaxOps)
 	if r.Float64() < 0.5 && n > 8 {
